@@ -67,6 +67,8 @@ type seqRun struct {
 	squeezed  [2]map[int]bool   // classification aid: wants whose task was dropped by a push into a full task queue
 	orphan    [2]map[int]bool   // classification aid: CIDs with a queued task but no want-list entry on the server
 	goneOrph  [2]map[int]bool   // ... and whether that was so when the peer cancelled the want
+	fullDrop  [2]map[int]bool   // classification aid: CIDs that a full want-list message of the peer dropped (not restated) earlier
+	staleFull [2]map[int]bool   // classification aid: server want-list entries that survived such a full message
 	connected [2]bool
 	deleted   [nCids]bool // removed from the store by a del operation
 	req       <-chan *decision.Envelope
@@ -108,6 +110,8 @@ func (x *seqRun) Main() {
 		x.squeezed[i] = map[int]bool{}
 		x.orphan[i] = map[int]bool{}
 		x.goneOrph[i] = map[int]bool{}
+		x.fullDrop[i] = map[int]bool{}
+		x.staleFull[i] = map[int]bool{}
 	}
 	x.w = newWorld(x.cfg)
 	vsched.WaitIdle()
@@ -189,6 +193,8 @@ func (x *seqRun) step(op string) {
 		x.asked[r] = map[int]want{}
 		x.oblig[r] = map[int]bool{}
 		x.squeezed[r] = map[int]bool{}
+		x.fullDrop[r] = map[int]bool{}
+		x.staleFull[r] = map[int]bool{}
 		x.connected[r] = false
 		for _, h := range x.held {
 			if h.role == r {
@@ -294,6 +300,12 @@ func (x *seqRun) judge(env *decision.Envelope) {
 		}
 		return "never-asked"
 	}
+	srv := w.ledger(r) // MessageSent has not run yet: wants answered by this envelope are still listed
+	extra := func(c int, kv ...string) []string {
+		_, listed := srv[c]
+		return append(kv, "on_server_wantlist", fmt.Sprint(listed), "dropped_by_full_message_earlier", fmt.Sprint(x.fullDrop[r][c]),
+			"task_without_wantlist_entry_at_cancel", fmt.Sprint(why(c) == "cancel" && x.goneOrph[r][c]))
+	}
 	whyOrStill := func(c int) string {
 		if _, ok := x.asked[r][c]; ok {
 			return "still-wanted"
@@ -310,7 +322,7 @@ func (x *seqRun) judge(env *decision.Envelope) {
 			x.fail(eng.V("block-denied-by-filter", "", fmt.Sprintf("block %s sent to p%d although the request filter denies it", cname(c), r+1)))
 		}
 		if _, ok := x.asked[r][c]; !ok {
-			x.fail(eng.V("block-not-wanted", "", fmt.Sprintf("block %s sent to p%d whose current want-list %s does not contain it (it left the want-list by: %s)", cname(c), r+1, fmtWants(x.asked[r]), why(c)), "want_removed_by", why(c), "task_without_wantlist_entry_at_cancel", fmt.Sprint(why(c) == "cancel" && x.goneOrph[r][c])))
+			x.fail(eng.V("block-not-wanted", "", fmt.Sprintf("block %s sent to p%d whose current want-list %s does not contain it (it left the want-list by: %s)", cname(c), r+1, fmtWants(x.asked[r]), why(c)), extra(c, "want_removed_by", why(c))...))
 		}
 		delete(x.oblig[r], c)
 	}
@@ -324,17 +336,17 @@ func (x *seqRun) judge(env *decision.Envelope) {
 			x.fail(eng.V("have-for-absent-block", "", fmt.Sprintf("HAVE %s sent to p%d but the block is not available to that peer (in store: %v, permitted: %v)", cname(c), r+1, c >= 0 && w.store[c], permitted(r, c)), "deleted_after_want", del))
 		}
 		if _, ok := x.asked[r][c]; !ok {
-			x.fail(eng.V("have-not-wanted", "", fmt.Sprintf("HAVE %s sent to p%d whose current want-list %s does not contain it (left by: %s)", cname(c), r+1, fmtWants(x.asked[r]), why(c)), "want_removed_by", why(c)))
+			x.fail(eng.V("have-not-wanted", "", fmt.Sprintf("HAVE %s sent to p%d whose current want-list %s does not contain it (left by: %s)", cname(c), r+1, fmtWants(x.asked[r]), why(c)), extra(c, "want_removed_by", why(c))...))
 		}
 		delete(x.oblig[r], c)
 	}
 	for _, c := range h.donts {
 		x.count("dont_haves_sent")
 		if w.serves(r, c) {
-			x.fail(eng.V("dont-have-for-present-block", "", fmt.Sprintf("DONT_HAVE %s sent to p%d although the block is in the blockstore and permitted", cname(c), r+1), "cid_kind", kind(c), "task_dropped_queue_at_limit", fmt.Sprint(x.squeezed[r][c]), "want_removed_by", whyOrStill(c)))
+			x.fail(eng.V("dont-have-for-present-block", "", fmt.Sprintf("DONT_HAVE %s sent to p%d although the block is in the blockstore and permitted", cname(c), r+1), extra(c, "cid_kind", kind(c), "task_dropped_queue_at_limit", fmt.Sprint(x.squeezed[r][c]), "want_removed_by", whyOrStill(c))...))
 		}
 		if a, ok := x.asked[r][c]; !ok || !a.dh {
-			x.fail(eng.V("dont-have-not-requested", "", fmt.Sprintf("DONT_HAVE %s sent to p%d which did not ask for it (current want-list %s; an earlier want for it left the list by: %s)", cname(c), r+1, fmtWants(x.asked[r]), why(c)), "want_removed_by", why(c)))
+			x.fail(eng.V("dont-have-not-requested", "", fmt.Sprintf("DONT_HAVE %s sent to p%d which did not ask for it (current want-list %s; an earlier want for it left the list by: %s)", cname(c), r+1, fmtWants(x.asked[r]), why(c)), extra(c, "want_removed_by", why(c))...))
 		}
 		delete(x.oblig[r], c)
 	}
@@ -400,10 +412,21 @@ func (x *seqRun) recv(r int, spec string) {
 	L := x.cfg.L
 	// model: the peer's own want-list
 	x.connected[r] = true
+	prevAsked := x.asked[r] // for the sticky flags of wants that a full message restates
 	if ms.full {
+		restated := map[int]bool{}
+		for _, e := range merged {
+			if !e.cancel {
+				restated[e.c] = true
+			}
+		}
 		for c := range x.asked[r] {
 			x.gone[r][c] = "full-replace"
+			if !restated[c] {
+				x.fullDrop[r][c] = true
+			}
 		}
+		prevAsked = x.asked[r]
 		x.asked[r] = map[int]want{}
 		x.count("full_messages")
 	}
@@ -427,6 +450,9 @@ func (x *seqRun) recv(r int, spec string) {
 		}
 		// send_dont_have is sticky while the want stays on the list (as in the message type itself)
 		old, had := x.asked[r][e.c]
+		if !had {
+			old, had = prevAsked[e.c]
+		}
 		// ... and so is a want-block (a later want-have does not take the request for the block back)
 		x.asked[r][e.c] = want{e.prio, e.have && (!had || old.have), e.dh || (had && old.dh)}
 		if e.c == cI || e.c == cO {
@@ -492,6 +518,18 @@ func (x *seqRun) recv(r int, spec string) {
 			reason = "replaced-by-this-full-message"
 		}
 		x.fail(eng.V("wantlist-stale-entry", "MessageReceived", fmt.Sprintf("want-list of p%d contains %s after MessageReceived(%s): %s -> %s", r+1, cname(c), spec, fmtLedger(pre), fmtLedger(post)), feat("stale_because", reason, "message_without_entries", fmt.Sprint(len(merged) == 0))...))
+	}
+	for c := range x.staleFull[r] {
+		if _, ok := post[c]; !ok {
+			delete(x.staleFull[r], c)
+		}
+	}
+	for c := range post {
+		if _, ok := wants[c]; ok {
+			delete(x.staleFull[r], c) // accepted afresh
+		} else if ms.full {
+			x.staleFull[r][c] = true
+		}
 	}
 	// classification of this message's effect
 	var admitted, rejected, evicted, oldSurvivors []int
@@ -760,7 +798,7 @@ func (x *seqRun) drain() {
 				if c == cZ {
 					kind = "empty-block"
 				}
-				x.fail(eng.V("want-unanswered", "quiescence", fmt.Sprintf("accepted want %s of p%d (want-list %s) was never answered although the block is in the store, the engine is idle and a receiver waits on the outbox\n%s", cname(c), r+1, fmtLedger(l), x.queueDump()), "cid_kind", kind, "task_dropped_queue_at_limit", fmt.Sprint(x.squeezed[r][c])))
+				x.fail(eng.V("want-unanswered", "quiescence", fmt.Sprintf("accepted want %s of p%d (want-list %s) was never answered although the block is in the store, the engine is idle and a receiver waits on the outbox\n%s", cname(c), r+1, fmtLedger(l), x.queueDump()), "cid_kind", kind, "task_dropped_queue_at_limit", fmt.Sprint(x.squeezed[r][c]), "wantlist_entry_stale_since_full_message", fmt.Sprint(x.staleFull[r][c])))
 			}
 		}
 		for c := range x.oblig[r] {
@@ -811,6 +849,16 @@ func (x *seqRun) stateKey() string {
 		}
 		sort.Ints(og)
 		sb.WriteString(" og=" + names(og))
+		var fd, sf []int
+		for c := range x.fullDrop[r] {
+			fd = append(fd, c)
+		}
+		for c := range x.staleFull[r] {
+			sf = append(sf, c)
+		}
+		sort.Ints(fd)
+		sort.Ints(sf)
+		sb.WriteString(" fd=" + names(fd) + " sf=" + names(sf))
 	}
 	fmt.Fprintf(&sb, "|req=%v held=", x.req != nil)
 	for _, h := range x.held {
